@@ -73,7 +73,7 @@ func genC03(g *h.G) {
 		switch tt.Class {
 		case "unsupported", "not-tlb":
 			continue
-		case "model", "partial":
+		case "model", "partial", "decode":
 			for i := 0; i < perType; i++ {
 				gc.ModelOnly = true
 				v := reflect.New(tt.T).Elem()
